@@ -19,6 +19,15 @@ Rules (keys are rule:unit:function:construct):
   R07.11 environment of the defining constant expression: a scope entry (the record an identifier's constant value is
         read from) is complete before any call that can resolve identifiers runs; no path creates the entry, parses /
         folds an expression and writes the entry afterwards (an enumerator is not visible in its own definition)
+  R07.12 consumers of the folder in static initializers (write_gvar_data, eval_truth): the folded value reaches the object converted to
+        the object's type as an assignment at run time converts it: every scalar class stored with its own width and representation,
+        a _Bool object / _Bool bit-field receives `value != 0` (not the low byte / low bits), a bit-field is merged masked and in 64 bits
+        (the obligations of C05 R05.2 / R05.4 on the static back end, re-issued: they state this clause of C07 too)
+  R07.13 precision of the floating folder: per arm of eval_double and per floating node type the returned value is the run-time value
+        of the node: operands are not rounded below their type, + - * / are carried out in the node's type (or in a format of at least
+        2p+2 digits and then rounded once to the node's type, which is exact), a cast / a literal is rounded exactly once, directly to
+        the node's type, values passed through (?: , unary -) are not rounded again, and the return type of eval_double holds every
+        floating type of the catalogue
 
 The folder (parse.c eval2 / eval_double / is_const_expr) is summarised once per
 node kind by a path-splitting symbolic executor (sa/lib_c07.py) that keeps, for
@@ -223,6 +232,8 @@ def run(P, rep, tier):
     r079(F, rep)
     r0710(F, rep)
     r0711(F, rep)
+    r0713(F, P, rep)
+    r0712(P, rep, tier)
 
 
 # ------------------------------------------------------------------ R07.8 ---
@@ -242,11 +253,10 @@ def _core(v):
 
 
 def _chain_is_wide(chain, floating=False):
-    """no conversion of the chain narrows below 64 bits"""
+    """no conversion of the chain narrows below 64 bits.  In the floating folder only a conversion to an integer type counts here: whether a
+    conversion between floating formats is the rounding the node's own type demands (or one too many / too narrow) is decided per node type by R07.13"""
     for to, frm in chain:
         if floating:
-            if to[0] == 'f' and to[1] < 64:
-                return False
             if to[0] in ('i', 'b'):
                 return False
         else:
@@ -281,7 +291,11 @@ def r078(F, rep):
     rep.rule('R07.8', 'each arm of eval2/eval_double applies the host operator its node kind denotes to the folded lhs and rhs in that order; '
                       '?: selects by the condition, comma yields the right operand, a literal yields its stored value', floor=30)
 
+    F.bad78 = set()
+
     def ob(fname, kind, construct, ok, what, p=None, facts=None):
+        if not ok:
+            F.bad78.add((fname, kind))
         if ok is None:
             rep.undecided('R07.8', '%s:%s:%s/%s' % (U, fname, kind, construct), what, where='%s:%d' % (U, line_of_kind(u, fname, F.E[kind])))
             return
@@ -617,7 +631,10 @@ def _check_binop(F, ob, fname, kind, op, rets, floating):
             ra, rb = as_rec(_core(a)[0]), as_rec(_core(b)[0])
             found = any(p.guard_of(('call', 'is_flonum', (ty_of(child(c)),))) is True for c in ('lhs', 'rhs'))
             flo_cmp = bool(ra and rb and ra[0] == 'eval_double' and rb[0] == 'eval_double' and found)
-        if floating or flo_cmp:
+        if floating:
+            if T[0] != 'f':      # which floating format: R07.13, per node type
+                good = False; construct = 'host-type'; msg = '`%s` is carried out in %s, not in a floating type' % (op, tshow(T))
+        elif flo_cmp:
             if T[0] != 'f' or T[1] < 64:
                 good = False; construct = 'host-type'; msg = '`%s` is carried out in %s, not in double' % (op, tshow(T))
         else:
@@ -643,7 +660,7 @@ def _check_unop(F, ob, fname, kind, op, rets, floating):
         if e:
             good = False; construct = 'operands'; msg = e; continue
         T = core[3]
-        if (floating and (T[0] != 'f' or T[1] < 64)) or (not floating and (T[0] != 'i' or T[1] != 64)):
+        if (floating and T[0] != 'f') or (not floating and (T[0] != 'i' or T[1] != 64)):
             good = False; construct = 'host-type'; msg = 'unary `%s` is carried out in %s' % (op, tshow(T))
         if good and not _outer_ok(F, p, chain, floating):
             good = False; construct = 'result-narrowed'
@@ -1446,6 +1463,283 @@ def r0711(F, rep):
                 rep.undecided('R07.11', '%s:%s:%s' % (U, fname, key), m['und'], where=w)
             else:
                 rep.ob('R07.11', '%s:%s:%s' % (U, fname, key), True, '', where=w)
+
+
+# ----------------------------------------------------------------- R07.12 ---
+def r0712(P, rep, tier):
+    """the static-initializer back end is the consumer that turns the folder's 64-bit / double value into the bytes of an object: the conversion to the
+    object's type that an assignment performs at run time (C11 6.7.9p11) happens there.  C05 decides it (R05.2 scalars, eval_truth; R05.4 bit-field
+    merge); the same obligations are the consumer clause of C07 for static initializers and are re-issued here."""
+    from ..report import Report, reissue
+    from . import c05
+    rep.rule('R07.12', 'static initializers: the folded value reaches the object converted to the object\'s type as a run-time assignment converts it: every scalar class '
+                       'is stored with its own width and representation, a _Bool object and a _Bool bit-field receive `value != 0` (not the low byte / the low bits of the '
+                       'folded value), a bit-field is merged as old | ((new & mask) << offset) in 64 bits (same obligations as C05 R05.2 / R05.4 on write_gvar_data and eval_truth)',
+             floor=18)
+    sub = Report('C05')
+    try:
+        try:
+            # only the rule functions of C05 that look at the consumer (a few seconds); the whole of c05.run when their interface moved
+            u = P.unit(U)
+            for r in ('R05.1', 'R05.2', 'R05.4', 'R05.7', 'R05.13'):
+                sub.rule(r, '', 1)
+            be = c05.BackEnd(P, u, u.enums, 'write_gvar_data')
+            c05.r051_struct(be, sub)
+            c05.r052_scalars(P, u, u.enums, Catalogue(P), sub)
+            c05.r052_truth_helper(P, u, u.enums, sub)
+        except (AttributeError, TypeError):
+            sub = Report('C05')
+            c05.run(P, sub, tier)
+    except AnalysisBroken as e:
+        rep.undecided('R07.12', '%s:write_gvar_data:consumer' % U, 'the static back end could not be evaluated: %s' % e)
+        return
+
+    def keep(o):
+        k = o['key']
+        return k.startswith(('R05.2:', 'R05.4:')) and (':write_gvar_data:' in k or ':eval_truth:' in k)
+    n = reissue(rep, 'R07.12', sub, 'the value the folder computed is not the value the object holds: ', keep=keep)
+    if n == 0:
+        rep.undecided('R07.12', '%s:write_gvar_data:consumer' % U, 'C05 produced no obligation about the static back end')
+
+
+# ----------------------------------------------------------------- R07.13 ---
+# digits (bits of significand) of the floating formats: clang's float / double / x87 long double, and the catalogue's type classes
+PREC = {32: 24, 64: 53, 80: 64}
+FLO_PREC = {'float': 24, 'double': 53, 'ldouble': 64}
+PREC_NAME = {24: 'float', 53: 'double', 64: 'long double'}
+FLO_ARITH = {'ND_ADD': '+', 'ND_SUB': '-', 'ND_MUL': '*', 'ND_DIV': '/'}
+# kind -> child whose folded value is passed through; by the typing relation (add_type: usual arithmetic conversions, R01.2) the child has the node's type
+FLO_PASS = {'ND_COND': ('then', 'els'), 'ND_COMMA': ('rhs',), 'ND_NEG': ('lhs',)}
+
+
+def _peel(v):
+    """(core, [(to, from)] inner first) of a value under its conversions"""
+    chain = []
+    while v[0] == 'cast':
+        chain.append((v[1], v[2])); v = v[3]
+    chain.reverse()
+    return v, chain
+
+
+def _int_digits(T):
+    """binary digits an integer of type T needs"""
+    if T[0] == 'b':
+        return 1
+    return T[1] - (1 if T[2] else 0)
+
+
+def _roundings(chain, p_src):
+    """the precisions at which a value that is exact in p_src digits is really rounded by the chain of conversions (a conversion to a format
+    that holds the value is the identity); None when the chain leaves the floating formats"""
+    cur = p_src
+    out = []
+    for to, frm in chain:
+        if to[0] != 'f' or to[1] not in PREC:
+            return None
+        p = PREC[to[1]]
+        if p < cur:
+            out.append(p); cur = p
+    return out
+
+
+def _judge_conv(rs, p_src, p_t):
+    """a value exact in p_src digits must arrive as the value of a node whose type has p_t digits: (construct, message) when wrong"""
+    tn = PREC_NAME[p_t]
+    if rs and min(rs) < p_t:
+        return 'rounded-below-%s' % tn.replace(' ', '-'), 'is rounded to %s although the node has type %s: digits the run-time value has are lost' % (PREC_NAME[min(rs)], tn)
+    if p_src <= p_t:
+        return None          # every rounding recorded is below p_src <= p_t: handled above
+    if not rs or rs[-1] != p_t:
+        return ('not-rounded-to-%s' % tn.replace(' ', '-'),
+                'keeps %s precision although the node has type %s: the generated code rounds to %s here' % (PREC_NAME[rs[-1]] if rs else PREC_NAME.get(p_src, '%d-digit' % p_src), tn, tn))
+    if len(rs) > 1:
+        return ('rounded-twice:' + '-'.join(PREC_NAME[r].replace(' ', '-') for r in rs),
+                'is rounded to %s and then to %s: two roundings differ from the single rounding of the run-time conversion for values close to a midpoint' % (PREC_NAME[rs[0]], tn))
+    return None
+
+
+def _tokenizer_may_round(P):
+    """does a function that stores a literal's floating value (`->fval = ...`) contain a narrowing conversion between floating formats?
+    (then the literal may arrive rounded already and the folder's ND_NUM arm need not round)"""
+    for un in P.unit_names:
+        cu = P.unit(un)
+        for fname, fd in cu.functions.items():
+            stores = False
+            narrow = False
+            for n in fd.walk():
+                if n.kind == 'BinaryOperator' and n.opcode == '=' and n.inner[0].strip().kind == 'MemberExpr' and n.inner[0].strip().name == 'fval':
+                    stores = True
+                if n.kind in ('ImplicitCastExpr', 'CStyleCastExpr') and n.cast_kind == 'FloatingCast':
+                    a, b = ctype(n.dtype), ctype(n.inner[0].dtype)
+                    if a[0] == 'f' and b[0] == 'f' and a[1] < b[1] and a[1] < 80:
+                        narrow = True
+            if stores and narrow:
+                return '%s:%s' % (un, fname)
+    return None
+
+
+def r0713(F, P, rep):
+    u = F.u
+    rep.rule('R07.13', 'per arm of eval_double and per floating node type the returned value has the precision of the node\'s type, as the run-time value has: operands are not rounded '
+                       'below their type; + - * / are carried out in the node\'s type, or in a format of at least 2p+2 digits and rounded once to the node\'s type; a cast and a literal '
+                       'are rounded exactly once, directly to the node\'s type; a value passed through (?:, comma, unary -) is not rounded again; the return type of eval_double holds '
+                       'every floating type', floor=20)
+    fd = u.fn('eval_double')
+    rt = ctype((fd.dtype or fd.type or '').split('(')[0].strip())
+    if rt[0] != 'f' or rt[1] not in PREC:
+        rep.undecided('R07.13', '%s:eval_double:return-type' % U, 'the return type of eval_double (%s) is not a floating type' % tshow(rt))
+        return
+    p_ret = PREC[rt[1]]
+    widest = max(FLO_PREC[t] for t in F.FLOLIKE)
+    w = '%s:%d' % (U, fd.line)
+    ok = p_ret >= widest
+    rep.ob('R07.13', '%s:eval_double:return-type%s' % (U, '' if ok else '/%s-cannot-hold-long-double' % tshow(rt).replace(' ', '-')), ok,
+           'eval_double returns %s: every floating constant expression of type long double (`static long double x = 0.1L;`, `1.0L / 3.0L`, `(long double)9223372036854775807L`, and the '
+           'operands of a folded long double comparison) is cut to %d digits at translation time while the generated code computes it with 64 digits' % (tshow(rt), p_ret), where=w)
+    fval_t = None
+    for f, qt, bf in u.records.get('Node', []):
+        if f == 'fval':
+            fval_t = ctype(qt)
+    if fval_t is None or fval_t[0] != 'f' or fval_t[1] not in PREC:
+        rep.undecided('R07.13', '%s:eval_double:ND_NUM' % U, 'Node.fval not found or not of a floating type')
+        fval_t = None
+    tok_round = None
+
+    def operand(v, kids, p_eff):
+        """None when v is conversions(eval_double(node->kid)) with kid in kids and no rounding below the operand's precision;
+        else (construct, message) / ('?', why)"""
+        core, chain = _peel(v)
+        r = as_rec(core)
+        if not r or core[0] != 'call' or r[0] != 'eval_double' or r[1] not in kids:
+            return '?', 'operand %s is not the floating folder on %s' % (show(v), '/'.join(kids))
+        rs = _roundings(chain, p_eff)
+        if rs is None:
+            return '?', 'operand %s leaves the floating formats' % show(v)
+        if rs:
+            return 'operand-rounded-to-%s' % PREC_NAME[min(rs)].replace(' ', '-'), 'the folded %s is rounded to %s before the operation (%s)' % (r[1], PREC_NAME[min(rs)], show(v))
+        return None
+
+    for kind in list(FLO_ARITH) + sorted(FLO_PASS) + ['ND_CAST', 'ND_NUM']:
+        try:
+            ps = [p for p in F.flo_paths(kind) if p.outcome[0] == 'ret']
+        except Unsupported as e:
+            rep.undecided('R07.13', '%s:eval_double:%s' % (U, kind), 'cannot summarise: %s' % e)
+            continue
+        if not ps:
+            continue          # a missing arm: R07.8
+        wk = '%s:%d' % (U, line_of_kind(u, 'eval_double', F.E[kind]))
+        for t in F.FLOLIKE:
+            p_t = FLO_PREC[t]
+            p_eff = min(p_t, p_ret)      # what the return type lets through (its own obligation above)
+            bad = {}
+            ots = {}
+            und = None
+            # a cast: the operand has any arithmetic type; paths may depend on it
+            operand_types = (F.INTLIKE + F.FLOLIKE) if kind == 'ND_CAST' else (None,)
+            n = 0
+            for ot in operand_types:
+                if ot == 'ptr':
+                    continue
+                sel = (F.facts(node=t, lhs=ot) if ot else F.facts(node=t)).select(ps)
+                for p in sel:
+                    n += 1
+                    v = p.outcome[1]
+                    core, chain = _peel(v)
+                    res = None
+                    if kind in FLO_ARITH:
+                        if core[0] != 'bin' or core[4][0] != 'f' or core[4][1] not in PREC:
+                            und = 'the arm returns %s' % show(v); continue
+                        p_h = PREC[core[4][1]]
+                        e = operand(core[2], ('lhs', 'rhs'), p_eff) or operand(core[3], ('lhs', 'rhs'), p_eff)
+                        if e:
+                            if e[0] == '?':
+                                und = e[1]
+                            else:
+                                bad[e[0]] = e[1]
+                            continue
+                        rs = _roundings(chain, p_h)
+                        if rs is None:
+                            und = 'the result %s leaves the floating formats' % show(v); continue
+                        if p_h < p_eff:
+                            res = ('computed-in-%s' % PREC_NAME[p_h].replace(' ', '-'), 'is computed in %s although the node has type %s' % (PREC_NAME[p_h], PREC_NAME[p_t]))
+                        elif p_h == p_eff:
+                            res = _judge_conv(rs, p_eff, p_eff)
+                        else:
+                            res = _judge_conv(rs, p_h, p_eff)
+                            if res is None and p_h < 2 * p_eff + 2:
+                                res = ('rounded-twice:%s-%s' % (PREC_NAME[p_h].replace(' ', '-'), PREC_NAME[p_eff].replace(' ', '-')),
+                                       'is computed in %s (%d digits) and then rounded to %s (%d digits): the operation rounds once and the conversion a second time, which differs from '
+                                       'the single rounding of the run-time operation unless the wider format has at least %d digits' % (PREC_NAME[p_h], p_h, PREC_NAME[p_eff], p_eff, 2 * p_eff + 2))
+                    elif kind == 'ND_NEG':
+                        if core[0] != 'un' or core[1] != '-':
+                            und = 'the arm returns %s' % show(v); continue
+                        e = operand(core[2], FLO_PASS[kind], p_eff)
+                        if e:
+                            if e[0] == '?':
+                                und = e[1]
+                            else:
+                                bad[e[0]] = e[1]
+                            continue
+                        rs = _roundings(chain, p_eff)
+                        if rs is None:
+                            und = 'the result %s leaves the floating formats' % show(v); continue
+                        res = _judge_conv(rs, p_eff, p_eff)
+                    elif kind in FLO_PASS:
+                        e = operand(v, FLO_PASS[kind], p_eff)
+                        if e and e[0] == '?':
+                            und = e[1]; continue
+                        res = (e[0].replace('operand-', ''), e[1]) if e else None
+                    elif kind == 'ND_CAST':
+                        r = as_rec(core)
+                        if not r or core[0] != 'call' or r[1] != 'lhs' or r[0] not in ('eval_double',) + INT_FOLD:
+                            und = 'the arm returns %s' % show(v); continue
+                        if r[0] == 'eval_double':
+                            # the folded operand: exact in its own type (integers: in their number of digits), as far as the return type lets it through
+                            p_src = min(p_ret, FLO_PREC[ot] if ot in FLO_PREC else _int_digits(('b',) if ot == 'bool' else ('i', F.trec[ot]['size'] * 8, not F.trec[ot]['is_unsigned'])))
+                        else:
+                            if ot in FLO_PREC:
+                                continue          # the integer folder on a floating operand: R07.6
+                            p_src = 64
+                            if chain and chain[0][1][0] in ('i', 'b'):
+                                p_src = min(_int_digits(chain[0][1]), _int_digits(('b',) if ot == 'bool' else ('i', F.trec[ot]['size'] * 8, not F.trec[ot]['is_unsigned'])))
+                                chain = [(chain[0][0], ('f', 80))] + chain[1:] if chain[0][0][0] == 'f' else chain
+                        rs = _roundings(chain, p_src)
+                        if rs is None:
+                            und = 'the result %s leaves the floating formats' % show(v); continue
+                        res = _judge_conv(rs, p_src, p_eff)
+                        if res:
+                            ots.setdefault(res[0], []).append(ot)
+                            res = (res[0], res[1] + ' (operand types %s)' % ','.join(ots[res[0]]))
+                    elif kind == 'ND_NUM':
+                        if core != ('fld', NODE, 'fval') or fval_t is None:
+                            und = 'the arm returns %s' % show(v); continue
+                        rs = _roundings(chain, PREC[fval_t[1]])
+                        if rs is None:
+                            und = 'the result %s leaves the floating formats' % show(v); continue
+                        res = _judge_conv(rs, PREC[fval_t[1]], p_eff)
+                        if res and res[0].startswith('not-rounded'):
+                            if tok_round is None:
+                                tok_round = _tokenizer_may_round(P) or ''
+                            if tok_round:
+                                und = 'the literal arm does not round node->fval to %s, but %s narrows a floating value where it stores the literal: whether the literal arrives rounded is not decided' % (PREC_NAME[p_t], tok_round)
+                                continue
+                    if res:
+                        bad[res[0]] = 'the value %s %s' % (show(v), res[1])
+            key = '%s:eval_double:%s/%s' % (U, kind, t)
+            ex = {'ND_ADD': '`static double d = 16777216.0f + 1.0f;` holds 16777217 where the generated addss yields 16777216', 'ND_SUB': '`16777216.0f - 0.5f`', 'ND_MUL': '`0.1f * 3.0f`',
+                  'ND_DIV': '`static double d = 1.0f / 3.0f;` keeps 53 digits of the quotient', 'ND_CAST': '`static double d = (float)0.1;` holds 0.1 with 53 digits, `(float)16777217` holds 16777217; '
+                  'at run time the conversion rounds to 24 digits', 'ND_NUM': '`static double d = 0.1f;` holds the literal with the precision of the host strtold, gen_expr emits it rounded to float'}.get(kind, '')
+            for c, m in sorted(bad.items()):
+                rep.ob('R07.13', '%s:%s' % (key, c), False, 'eval_double of %s for a node of type %s: %s%s' % (kind, PREC_NAME[p_t], m, (' (' + ex + ')') if ex and t == 'float' else ''), where=wk)
+            if bad:
+                continue
+            if und and (('eval_double', kind) not in getattr(F, 'bad78', ())):
+                rep.undecided('R07.13', key, und, where=wk)
+            elif not und:
+                if n == 0:
+                    rep.undecided('R07.13', key, 'no returning path of the %s arm for a node of type %s' % (kind, PREC_NAME[p_t]), where=wk)
+                else:
+                    rep.ob('R07.13', key, True, '', where=wk)
 
 
 # ------------------------------------------------------------------ R07.3 ---
